@@ -31,6 +31,7 @@ FILE_DEPS = {
     "enc/lzma_writer.rs": ["enc/lzma2_writer.rs"],
     "enc/lzma2_writer.rs": ["enc/range_enc.rs"],
     "enc/range_enc.rs": ["range_dec.rs"],
+    "lzip/reader.rs": ["lzip.rs", "lzma_reader.rs", "range_dec.rs"],
     "filter/bcj/arm.rs": ["filter/bcj.rs"], "filter/bcj/ppc.rs": ["filter/bcj.rs"], "filter/bcj/sparc.rs": ["filter/bcj.rs"],
     "filter/bcj/x86.rs": ["filter/bcj.rs"], "filter/bcj/ia64.rs": ["filter/bcj.rs"], "filter/bcj/riscv.rs": ["filter/bcj.rs"],
 }
@@ -139,7 +140,7 @@ U(id="C03.xz.unpadded", props=["C03", "C02"], file="xz/writer.rs", extra_files=[
   harnesses=["c03_xz_prepare_block_start"], contract_stubs=[PAYLOAD_W[0]],
   functions=[("src/xz/writer.rs", "prepare_next_block"), ("src/xz/writer.rs", "write_block_header"), ("src/xz/writer.rs", "encode_lzma2_dict_size")],
   contract="prepare_next_block records the block start before the block header (so unpadded size covers header+data+check, xz-file-format 4.3), writes a 12-byte header for a lone LZMA2 filter, resets the block byte count")
-PARK(id="C18.xz.step", props=["C18", "C02", "C07"], file="xz/writer.rs", extra_files=["xz/reader.rs", "xz.rs", "enc/lzma2_writer.rs"],
+PARK(id="C18.xz.step.real", props=["C18", "C02", "C07"], file="xz/writer.rs", extra_files=["xz/reader.rs", "xz.rs", "enc/lzma2_writer.rs"],
   harnesses=["c18_xz_write_step_e1_lim", "c18_xz_write_step_e4_lim", "c18_xz_write_step_e3_unl"], contract_stubs=[PAYLOAD_W[0]],
   functions=[("src/xz/writer.rs", "write", "Write for XZWriter"), ("src/xz/writer.rs", "should_finish_block"), ("src/xz/writer.rs", "finish_current_block"),
              ("src/xz/writer.rs", "prepare_next_block"), ("src/xz/writer.rs", "new", "XZWriter")],
@@ -289,6 +290,18 @@ U(id="C10.lock", props=["C10"], file="work_queue.rs", harnesses=["c10_queue_clos
   stubs=["AtomicBool::store -> asserts that the paired queue mutex is held (try_lock fails), then performs the store"],
   functions=[("src/work_queue.rs", "close"), ("src/work_queue.rs", "steal")],
   contract="monitor discipline (sufficient for no lost wake-up): the closed flag read by the condvar wait predicate is written only while the queue mutex is held")
+CHAIN_W = ["XZWriter::prepare_next_block -> contract stub: block start recorded, real write_block_header, payload chain (accepts all bytes, emits 1..4 bytes on finish) installed"]
+U(id="C02.xz.empty", props=["C02", "C03"], file="xz/writer.rs", features=NOSTD, harnesses=["c02_xz_finish_empty_stream"],
+  functions=[("src/xz/writer.rs", "finish", "XZWriter"), ("src/xz/writer.rs", "finish_current_block"), ("src/xz/writer.rs", "write_index"), ("src/xz/writer.rs", "write_stream_footer")],
+  contract="finish() on a writer that received no data emits stream header | index with 0 records | footer (32 bytes, xz-file-format 2.1)")
+U(id="C18.xz.step", props=["C18", "C02", "C07"], file="xz/writer.rs", features=NOSTD, harnesses=["c18_xz_write_step2_e1_lim", "c18_xz_write_step2_e3_unl"], contract_stubs=CHAIN_W,
+  functions=[("src/xz/writer.rs", "write", "Write for XZWriter"), ("src/xz/writer.rs", "should_finish_block"), ("src/xz/writer.rs", "finish_current_block"), ("src/xz/writer.rs", "new", "XZWriter")],
+  contract="inductive step: from any in-block state with u<=limit bytes, write(n) for any n<=9000: every block <= max(block_size,dict_size), blocks partition the bytes in order, no empty block, one index record per finished block with its byte count and unpadded size = header+compressed+check")
+U(id="C04.lzip.member", props=["C04", "C06", "C03", "C02"], file="lzip/reader.rs",
+  harnesses=["c04_lzip_header_parse_any", "c04_lzip_trailer_parse_any", "c04_lzip_finish_member"],
+  contract_stubs=["LZMAReader with zeroed decoder storage (only its range decoder's inner reader is used)"],
+  functions=[("src/lzip.rs", "parse", "LZIPHeader"), ("src/lzip.rs", "parse", "LZIPTrailer"), ("src/lzip/reader.rs", "finish_current_member")],
+  contract="header: Ok <=> magic, version 1, valid dictionary byte; trailer fields little endian; member accepted <=> stored crc = crc_fn(yielded bytes), stored data size = yielded count, stored member size = 6+compressed+20")
 
 # ---------------------------------------------------------------------------------------- quick-tier budget
 # Harnesses kept in the quick tier per unit; every other harness of the unit runs in the thorough tier only.
